@@ -13,7 +13,8 @@ LEVEL_TEXT = (
     "over ttl in {0, !=0}: 0 -> DashMap::clear, != 0 -> alter_all whose closure writes a TTL that depends on the flush delay, "
     "the current time and the item's timestamp (so the item expires no later than now+delay); R3 flush wire layout "
     "(expiration = body[0..4] iff extras_length = 4, else 0), handler plumbing and rows 0x08/0x18; R4 flush leaves no state "
-    "behind (it writes nothing but map entries), so items stored later are unaffected. Not decided: that clear/alter_all "
+    "behind (it writes nothing but map entries) and nothing under the handler's delete / flush hands work to another task, "
+    "thread or queue (the command has taken effect when it is acknowledged), so items stored later are unaffected. Not decided: that clear/alter_all "
     "visit every shard (DashMap)."
 )
 ASSUMPTIONS = ["DashMap 5.5.3 semantic table (clear removes everything; alter_all visits every entry)", "bytes semantic table"]
@@ -30,22 +31,22 @@ def r1(ctx):
     for op, variant in ((0x04, "Delete"), (0x14, "DeleteQuiet")):
         somes, _t = decoded_variant(ctx, op)
         rep.check(somes == [variant], "decode:%#04x" % op, "%#04x decodes to %s" % (op, variant), "opcode %#04x decodes to %s, the protocol says %s" % (op, somes, variant), safe_loc(f, CODEC + "::parse_request"))
-        hm = handler_method_of(ctx, variant)
-        rep.check(hm == {"delete"}, "handle:%s" % variant, "%s handled by BinaryHandler::delete" % variant, "%s is handled by %s" % (variant, sorted(hm or [])), safe_loc(f, HANDLER + "::handle_request"))
-    hb = f.one(HANDLER + "::delete")
-    I = Interp(f, policy=memc_opaque)
-    ok = False
-    for p in I.run(hb, [P("self"), P("delete_request"), P("response_header")]):
-        calls = [e for e in p.events if e.kind == "call" and e.name.startswith(MEMC + "::")]
-        ok = len(calls) == 1 and calls[0].name == MEMC + "::delete" and tform(calls[0].args[1]) == F(P("delete_request"), "key") and field_of(calls[0].args[2], "cas") == F(P("delete_request"), "header", "cas")
-        if not ok:
-            break
-    rep.check(ok, "handler:delete:plumbing", "MemcStore::delete(request.key, meta{cas <- header.cas})", "BinaryHandler::delete does not pass the request's key and cas to the store", hb.loc())
+        hm = dispatch.store_methods_of_variant(ctx, variant)
+        rep.check(hm == {"delete"}, "handle:%s" % variant, "%s is dispatched to MemcStore::delete" % variant, "%s reaches MemcStore::%s" % (variant, sorted(hm or [])), safe_loc(f, HANDLER + "::handle_request"))
+    # plumbing, for the loud and the quiet opcode alike, on the public handle_request (private handler methods inlined)
+    for variant in ("Delete", "DeleteQuiet"):
+        hb, hpaths = dispatch.variant_store_paths(ctx, variant, "delete_request")
+        ok = bool(hpaths)
+        for p in hpaths:
+            calls = [e for e in p.events if e.kind == "call" and e.name.startswith(MEMC + "::")]
+            ok = ok and not p.cut and len(calls) == 1 and calls[0].name == MEMC + "::delete" and tform(calls[0].args[1]) == F(P("delete_request"), "key") and field_of(calls[0].args[2], "cas") == F(P("delete_request"), "header", "cas")
+        rep.check(ok, "handler:delete:plumbing" if variant == "Delete" else "handler:delete:plumbing[quiet]", "MemcStore::delete(request.key, meta{cas <- header.cas})", "a %s request does not reach MemcStore::delete exactly once with the request's key and cas" % variant, hb.loc())
     mb = f.one(MEMC + "::delete")
-    ok = False
+    oks = []
     for p in Interp(f).run(mb, [P("self"), P("key"), P("header")]):
         calls = [e for e in p.events if e.kind == "call" and e.name.startswith(CACHE + "::")]
-        ok = len(calls) == 1 and calls[0].name == CACHE + "::delete" and tform(calls[0].args[1]) == P("key") and tform(calls[0].args[2]) == P("header") and tform(p.ret) == calls[0].result
+        oks.append(len(calls) == 1 and calls[0].name == CACHE + "::delete" and tform(calls[0].args[1]) == P("key") and tform(calls[0].args[2]) == P("header") and tform(p.ret) == calls[0].result and not p.cut)
+    ok = bool(oks) and all(oks)
     rep.check(ok, "MemcStore::delete", "forwards to Cache::delete(key, header)", "MemcStore::delete does not forward key/header to the store", mb.loc())
     return rep
 
@@ -128,32 +129,35 @@ def r3(ctx):
     for op, variant in ((0x08, "Flush"), (0x18, "FlushQuietly")):
         somes, _t = decoded_variant(ctx, op)
         rep.check(somes == [variant], "decode:%#04x" % op, "%#04x decodes to %s" % (op, variant), "opcode %#04x decodes to %s, the protocol says %s" % (op, somes, variant), safe_loc(f, CODEC + "::parse_request"))
-        hm = handler_method_of(ctx, variant)
-        rep.check(hm == {"flush"}, "handle:%s" % variant, "%s handled by BinaryHandler::flush" % variant, "%s is handled by %s" % (variant, sorted(hm or [])), safe_loc(f, HANDLER + "::handle_request"))
+        hm = dispatch.store_methods_of_variant(ctx, variant)
+        rep.check(hm == {"flush"}, "handle:%s" % variant, "%s is dispatched to MemcStore::flush" % variant, "%s reaches MemcStore::%s" % (variant, sorted(hm or [])), safe_loc(f, HANDLER + "::handle_request"))
     pb = f.one(CODEC + "::parse_flush_request")
     from bufmodel import BUF_MODELS
 
     for extras, want in ((0, "zero"), (4, "read"), (8, "zero")):
         slf = dispatch.codec_self(0x08, header_fields={"extras_length": extras, "key_length": 0, "body_length": extras})
         paths = Interp(f, models=BUF_MODELS).run(pb, [slf, P("src")])
-        got = None
+        gots = set()
         for p in paths:
             if dispatch.outcome_of(p.ret).startswith("Some:"):
                 e = field_of(p.ret, "0", "0", "0", "expiration")
-                got = "zero" if e == 0 else ("read" if isinstance(e, tuple) and e[0] == "bufread" and e[2] == 0 and e[3] == 4 else "other:" + short(e, 60))
+                gots.add("zero" if e == 0 else ("read" if isinstance(e, tuple) and e[0] == "bufread" and e[2] == 0 and e[3] == 4 else "other:" + short(e, 60)))
+        got = want if gots == {want} else (sorted(gots - {want})[0] if gots - {want} else None)
         rep.check(got == want, "flush-extras[%d]" % extras, "extras_length %d -> expiration %s" % (extras, want), "flush frame with extras_length %d decodes expiration as %s (expected %s)" % (extras, got, want), pb.loc())
-    hb = f.one(HANDLER + "::flush")
-    I = Interp(f, policy=memc_opaque)
-    ok = False
-    for p in I.run(hb, [P("self"), P("flush_request"), P("response_header")]):
-        calls = [e for e in p.events if e.kind == "call" and e.name.startswith(MEMC + "::")]
-        ok = len(calls) == 1 and calls[0].name == MEMC + "::flush" and field_of(calls[0].args[1], "time_to_live") == F(P("flush_request"), "expiration")
-    rep.check(ok, "handler:flush:plumbing", "MemcStore::flush(meta{ttl <- request.expiration})", "BinaryHandler::flush does not pass the request's expiration as the flush delay", hb.loc())
+    for variant in ("Flush", "FlushQuietly"):
+        hb, hpaths = dispatch.variant_store_paths(ctx, variant, "flush_request")
+        oks = []
+        for p in hpaths:
+            calls = [e for e in p.events if e.kind == "call" and e.name.startswith(MEMC + "::")]
+            oks.append(len(calls) == 1 and calls[0].name == MEMC + "::flush" and field_of(calls[0].args[1], "time_to_live") == F(P("flush_request"), "expiration") and not p.cut)
+        ok = bool(oks) and all(oks)
+        rep.check(ok, "handler:flush:plumbing" if variant == "Flush" else "handler:flush:plumbing[quiet]", "MemcStore::flush(meta{ttl <- request.expiration})", "a %s request does not reach MemcStore::flush exactly once with the request's expiration as the flush delay" % variant, hb.loc())
     mb = f.one(MEMC + "::flush")
-    ok = False
+    oks = []
     for p in Interp(f).run(mb, [P("self"), P("header")]):
         calls = [e for e in p.events if e.kind == "call" and e.name.startswith(CACHE + "::")]
-        ok = len(calls) == 1 and calls[0].name == CACHE + "::flush" and tform(calls[0].args[1]) == P("header")
+        oks.append(len(calls) == 1 and calls[0].name == CACHE + "::flush" and tform(calls[0].args[1]) == P("header") and not p.cut)
+    ok = bool(oks) and all(oks)
     rep.check(ok, "MemcStore::flush", "forwards to Cache::flush(header)", "MemcStore::flush does not forward to the store", mb.loc())
     return rep
 
@@ -177,12 +181,23 @@ def r4(ctx):
                 bad = bad or None
     rep.check(bad is None, "MemoryStore::flush:stateless", "no field of the store is written by flush", "MemoryStore::flush %s: a flush leaves state behind that can affect items stored later" % bad, fb.loc())
     pb = f.one(rp("flush"))
-    ok = False
+    oks = []
     for p in Interp(f).run(pb, [P("self"), P("header")]):
         calls = [e for e in p.events if e.kind == "call" and e.name.startswith(CACHE + "::")]
         writes = [e for e in p.events if e.kind == "write"]
-        ok = len(calls) == 1 and calls[0].name == CACHE + "::flush" and tform(calls[0].args[1]) == P("header") and not writes
+        oks.append(len(calls) == 1 and calls[0].name == CACHE + "::flush" and tform(calls[0].args[1]) == P("header") and not writes and not p.cut)
+    ok = bool(oks) and all(oks)
     rep.check(ok, "RandomPolicy::flush", "policy flush = inner flush(header)", "RandomPolicy::flush is not a plain forward of the flush to the inner store", pb.loc())
+    # a delete / flush has taken effect when it is acknowledged: nothing under the handler's delete and flush hands work to
+    # another task, thread or queue (a flush executed later would hit items stored after it was acknowledged)
+    import callgraph
+    from rules.conntask import is_deferral
+
+    cg = callgraph.get(ctx)
+    for meth in ("flush", "delete"):
+        hb, _hargs = dispatch.handler_body_args(ctx, meth, "request")
+        w = cg.may_reach_ext(hb.path, is_deferral)
+        rep.check(w is None, "handler:%s:executes-before-acknowledged" % meth, "the command has been carried out when the handler returns its response", "BinaryHandler::%s hands work to another task / thread (%s): the command is acknowledged before it has taken effect, so it can hit items stored after it" % (meth, " -> ".join(x.replace("memcrs::", "") for x in w) if w else ""), hb.loc())
     return rep
 
 
